@@ -94,6 +94,8 @@ pub fn run(out: &mut Out, which: &str, seed: u64, thorough: bool) {
             let mut c = ReaderCfg::strict(); c.buffer = vec![0x82]; cfgs.push(c);
             small(out, if thorough { 5 } else { 4 }, &cfgs, if thorough { 3 } else { 4 }, seed);
         }
+        "prefixed" => small_prefixed(out, 4, if thorough { 1 } else { 6 }, seed),
+        "sizes" => sizes(out, &mut rng, 250 * k),
         "docs" => docs(out, &mut rng, 300 * k, false, true),
         "mutate" => docs(out, &mut rng, 400 * k, true, true),
         "suffixes" => suffixes(out, &mut rng, 150 * k),
@@ -103,7 +105,7 @@ pub fn run(out: &mut Out, which: &str, seed: u64, thorough: bool) {
         "cut" => cut(out, &mut rng, 60 * k, if thorough { 400 } else { 120 }),
         "sched" => sched(out, &mut rng, 120 * k, if thorough { 11 } else { 8 }, &[None, Some(16), Some(17), Some(18), Some(31), Some(64), Some(4096)]),
         "sched_smallcap" => sched(out, &mut rng, 40 * k, 6, &[Some(0), Some(1), Some(2), Some(8), Some(15)]),
-        "tol" => tol(out, &mut rng, 300 * k),
+        "tol" => tol(out, &mut rng, 900 * k),
         "junk" => junk(out, &mut rng, 120 * k),
         "total" => total(out, &mut rng, 1500 * k),
         x => panic!("unknown reader driver {x}"),
@@ -295,6 +297,7 @@ pub fn sched(out: &mut Out, rng: &mut Rng, count: usize, exhaustive_below: usize
 /// C13: one input under all 8 tolerance sets; valid documents with one injected fault of each class
 pub fn tol(out: &mut Out, rng: &mut Rng, count: usize) {
     let mut n = 0usize;
+    tol_systematic(out, &mut n);
     for i in 0..count {
         let s = pick_schema(rng, i);
         let mut doc = small_doc(rng, &s, 16, false);
@@ -334,13 +337,25 @@ pub fn tol(out: &mut Out, rng: &mut Rng, count: usize) {
                 let idx = (0..lay2.len()).filter(|k| lay2[*k].parent == Some(mi) ).last().unwrap();
                 fault = json!({"class":"hier","off":lay2[idx].off,"id":idw(e.id)});
             }
-            2 => { // a child overrunning its known-size parent: enlarge the declared size of a binary/utf8 leaf inside a master
-                let cands: Vec<&gen::Lay> = lay.iter().filter(|t| !t.is_master && t.parent.is_some() && t.hlen - gen::id_bytes(t.id).len() == 1 && t.size < 100
+            2 => { // a child overrunning a known-size ancestor: enlarge the declared size of a binary/utf8 leaf inside a master
+                // (half of the time some masters - possibly the direct parent - are unknown-size: the nearest known-size ancestor counts)
+                let mut lay = lay.clone();
+                if rng.chance(1, 2) {
+                    let flat = gen::flat_index(&doc);
+                    let want: Vec<bool> = (0..flat.len()).map(|_| rng.chance(1, 2)).collect();
+                    gen::assign_unknown(&mut doc, &s, &want);
+                    bytes = gen::encode_doc(&doc);
+                    lay = gen::layout(&doc);
+                }
+                let known_anc = |t: &gen::Lay| -> Option<usize> { let mut p = t.parent; while let Some(x) = p { if !lay[x].unk { return Some(x); } p = lay[x].parent; } None };
+                let cands: Vec<&gen::Lay> = lay.iter().filter(|t| !t.is_master && known_anc(t).is_some() && t.hlen - gen::id_bytes(t.id).len() == 1 && t.size < 100
                     && matches!(s.get(t.id).map(|e| e.ty), Some(ebml_iterable::specs::TagDataType::Binary) | Some(ebml_iterable::specs::TagDataType::Utf8))).collect();
                 if cands.is_empty() { continue; }
-                let t = (*rng.pick(&cands)).clone();
-                let par = &lay[t.parent.unwrap()];
-                let room = par.off + par.hlen + par.size - (t.off + t.hlen);   // bytes from this payload start to the parent's end
+                // prefer a leaf whose direct parent is unknown-size (the known-size master it overruns is further up)
+                let deep: Vec<&gen::Lay> = cands.iter().copied().filter(|t| lay[t.parent.unwrap()].unk).collect();
+                let t = if !deep.is_empty() && rng.chance(3, 4) { (*rng.pick(&deep)).clone() } else { (*rng.pick(&cands)).clone() };
+                let par = &lay[known_anc(&t).unwrap()];
+                let room = par.off + par.hlen + par.size - (t.off + t.hlen);   // bytes from this payload start to that ancestor's end
                 let newsize = room + 1 + rng.below(5);
                 if newsize >= 127 { continue; }
                 bytes[t.off + t.hlen - 1] = 0x80 | newsize as u8;
@@ -508,4 +523,89 @@ pub fn witness_buffered_eof(out: &mut Out, n: &mut usize) {
     run_reader::<DynTag>(out, "flat", &bytes[..q_off], &flat, &[], &until_end());
     run_reader::<DynTag>(out, "buf:B", &bytes[..q_off], &c, &[], &until_end());
     out.ev(json!({"ev":"end"}));
+}
+
+/// every byte string over SIGMA12 of length `len` appended to fixed prefixes that open unknown-size masters
+/// (systematic continuation of the bounded model beyond its length bound: what may follow inside / after such masters)
+pub fn small_prefixed(out: &mut Out, len: usize, stride: usize, seed: u64) {
+    let s = gen::s3();
+    let prefixes: [&[u8]; 4] = [&[0x81, 0xff], &[0x81, 0xff, 0x82, 0xff], &[0x8b, 0xff], &[0x81, 0xff, 0x82, 0x84]];
+    let mut n = 0usize;
+    let mut idx: u64 = 0;
+    for pre in prefixes.iter() {
+        let total = 12usize.pow(len as u32);
+        for k in 0..total {
+            idx += 1;
+            if stride > 1 && (idx.wrapping_mul(0x9E3779B97F4A7C15).wrapping_add(seed) >> 33) % (stride as u64) != 0 { continue; }
+            let mut x = k; let mut inp = pre.to_vec();
+            for _ in 0..len { inp.push(SIGMA12[x % 12]); x /= 12; }
+            begin(out, &mut n, &s, "single", json!({}));
+            run_reader::<DynTag>(out, "strict", &inp, &ReaderCfg::strict(), &[], &until_end());
+            out.ev(json!({"ev":"end"}));
+        }
+    }
+}
+
+/// structure-aware corruption: rewrite the size field of one tag of a valid document (mixed known / unknown sizes)
+/// so that it swallows following tags or cuts its own content short; strict and tolerant runs
+pub fn sizes(out: &mut Out, rng: &mut Rng, count: usize) {
+    let mut n = 0usize;
+    for i in 0..count {
+        let s = pick_schema(rng, i);
+        let mut doc = small_doc(rng, &s, 12, false);
+        gen::clear_unknown(&mut doc);
+        let flat = gen::flat_index(&doc);
+        let want: Vec<bool> = (0..flat.len()).map(|_| rng.chance(1, 2)).collect();
+        gen::assign_unknown(&mut doc, &s, &want);
+        let bytes = gen::encode_doc(&doc);
+        let lay = gen::layout(&doc);
+        if bytes.len() > 400 { continue; }
+        let cands: Vec<&gen::Lay> = lay.iter().filter(|t| !t.unk && t.hlen - gen::id_bytes(t.id).len() == 1).collect();
+        if cands.is_empty() { continue; }
+        for _ in 0..4 {
+            let t = (*rng.pick(&cands)).clone();
+            let rest = bytes.len() - (t.off + t.hlen + t.size);
+            let delta: i64 = if rng.chance(2, 3) && rest > 0 { 1 + rng.below(rest.min(24)) as i64 } else { -(1 + rng.below(t.size.max(1).min(8)) as i64) };
+            let newsize = t.size as i64 + delta;
+            if !(0..127).contains(&newsize) { continue; }
+            let mut b2 = bytes.clone();
+            b2[t.off + t.hlen - 1] = 0x80 | newsize as u8;
+            begin(out, &mut n, &s, "single", json!({"rewritten": t.off}));
+            run_reader::<DynTag>(out, "strict", &b2, &ReaderCfg::strict(), &[], &until_end());
+            let mut c = ReaderCfg::strict().with_allow(*rng.pick(&[2u8, 4, 6, 7])); c.max = MaxCfg::Some(65536);
+            run_reader::<DynTag>(out, "tolerant", &b2, &c, &[], &until_end());
+            out.ev(json!({"ev":"end"}));
+        }
+    }
+}
+
+/// systematic C13 faults on S3: A { B { C { X } Q } P } with every known/unknown combination of A, B, C and
+/// (a) X enlarged beyond the nearest known-size ancestor, (b) an unknown id in place of X, (c) a misplaced element
+fn tol_systematic(out: &mut Out, n: &mut usize) {
+    let s = gen::s3();
+    for mask in 0..8u32 {
+        for fault in 0..3 {
+            let mut doc = vec![Node::master(0x81, vec![Node::master(0x82, vec![Node::master(0x83, vec![Node::leaf(0x84, gen::Val::U(1)), Node::leaf(0x88, gen::Val::B(vec![1, 2, 3]))]), Node::leaf(0x8a, gen::Val::U(2))]), Node::leaf(0x89, gen::Val::U(3))])];
+            doc[0].unk = mask & 1 != 0; doc[0].kids[0].unk = mask & 2 != 0; doc[0].kids[0].kids[0].unk = mask & 4 != 0;
+            if fault == 2 && mask & 6 == 6 { continue; }   // with B and C unknown-size, P legitimately ends them (it is a sibling of B)
+            if fault == 2 { doc[0].kids[0].kids[0].kids.insert(1, Node::leaf(0x89, gen::Val::U(9))); }   // P (child of A) inside C
+            let mut bytes = gen::encode_doc(&doc);
+            let lay = gen::layout(&doc);
+            let x = lay.iter().find(|t| t.id == 0x88).unwrap().clone();
+            let fj = match fault {
+                0 => {
+                    let mut p = x.parent; let mut anc = None; while let Some(i) = p { if !lay[i].unk { anc = Some(i); break; } p = lay[i].parent; }
+                    let Some(a) = anc else { continue; };
+                    let room = lay[a].off + lay[a].hlen + lay[a].size - (x.off + x.hlen);
+                    bytes[x.off + x.hlen - 1] = 0x80 | (room + 1) as u8;
+                    json!({"class":"oversized","off":x.off,"id":idw(0x88)})
+                }
+                1 => { bytes[x.off] = 0x90; json!({"class":"bad_id","off":x.off,"id":idw(0x90)}) }
+                _ => { let p9 = lay.iter().find(|t| t.id == 0x89 && t.depth == 3).unwrap(); json!({"class":"hier","off":p9.off,"id":idw(0x89)}) }
+            };
+            begin(out, n, &s, "tol", json!({"fault": fj, "root": true}));
+            for bits in 0..8u8 { let mut c = ReaderCfg::strict().with_allow(bits); c.max = MaxCfg::Some(65536); run_reader::<DynTag>(out, &format!("allow:{bits}"), &bytes, &c, &[], &until_end()); }
+            out.ev(json!({"ev":"end"}));
+        }
+    }
 }
